@@ -118,6 +118,17 @@ var profiles = map[string]profile{
 			g := baseGen(r, k)
 			g.Cheaters = 1 + r.Intn(2)
 			g.ForkProb = 0.3
+			if k%3 == 0 { // several light forkers of different weights: the canonical order of the list differs from the id order
+				g.Weights = [][]int{{6, 5, 4, 2, 1}, {7, 6, 5, 3, 2, 1}, {4, 4, 4, 2, 1}, {9, 8, 3, 2, 1}, {5, 5, 5, 2, 1, 1}}[(k/3)%5]
+				g.Cheaters = 3
+				g.ForkProb = 0.7
+				g.MaxParents = len(g.Weights)
+				g.Partition = false
+				g.Lag = 0
+				g.NapProb = 0
+				g.LagHeavy = false
+				g.EpochEvents = 75
+			}
 			if k%3 == 2 {
 				g.ByzHeavy = true
 				g.Cheaters = 1 + r.Intn(len(g.Weights)/2+1)
@@ -140,7 +151,7 @@ var profiles = map[string]profile{
 		plays: func(r *rand.Rand, k int) []PlayOpts {
 			hist := []int{1, 255, 256, 257, 511, 512, 767}[k%7]
 			return []PlayOpts{
-				{Order: "gen", Builds: 0.4, Rejects: 0.5, BuildEach: true, BigIdx: true},
+				{Order: "gen", Builds: 0.4, Rejects: 0.5, BuildEach: true, BigIdx: true, RichBuilds: 0.3, Rebuilds: 0.5},
 				{Order: "topo", BuildEach: true, BuildHistory: hist, BigIdx: true},
 			}
 		},
@@ -193,7 +204,7 @@ var profiles = map[string]profile{
 		},
 		plays: func(r *rand.Rand, k int) []PlayOpts {
 			o := orders[k%3]
-			return []PlayOpts{{Order: o, Builds: 0.8, Rejects: 0.8, BuildEach: true}, {Order: o}}
+			return []PlayOpts{{Order: o, Builds: 0.8, Rejects: 0.8, BuildEach: true, RichBuilds: 0.7, Rebuilds: 0.5, FCQueries: 2}, {Order: o}}
 		},
 	},
 	// restart at every boundary, at sparse boundaries (caches warm in between) and never (twin)
